@@ -55,3 +55,9 @@ func childBuilder(c *core.Ctx, cpus int) func(req pj.BuildReq, env []string) (pj
 		return res, true
 	}
 }
+
+// watchdogOnly reports whether a dead child was ended by the wall-clock watchdog without any sign of a fatal error or a
+// deadlock in its dump: on a loaded machine that is no evidence about dawn, and the verdict is "inconclusive".
+func watchdogOnly(res pj.BuildRes) bool {
+	return strings.TrimSpace(res.Panic) == "watchdog" && !strings.Contains(res.RunErr, "all goroutines are asleep")
+}
